@@ -20,6 +20,8 @@ THEOREMS = [
     "IwModel.C12.segments_partition", "IwModel.C12.shared_refines_flat", "IwModel.C12.size_inv",
     "IwModel.C12.read_after_write", "IwModel.C12.read_unaffected_by_write", "IwModel.C12.read_fresh_is_zero",
     "IwModel.C12.ensure_follows_policy", "IwModel.C12.reopen_size_partial",
+    "IwModel.C12.private_read_after_write_partial", "IwModel.C12.private_remap_loses_write",
+    "IwModel.C12.private_remove_loses_write", "IwModel.C12.private_copy_bypasses_window", "IwModel.C12.copy_beyond_grows_disk",
 ]
 
 PS = 4096
